@@ -19,6 +19,7 @@ import (
 	routev3 "github.com/envoyproxy/go-control-plane/envoy/config/route/v3"
 	discovery "github.com/envoyproxy/go-control-plane/envoy/service/discovery/v3"
 	"google.golang.org/grpc/codes"
+	"google.golang.org/grpc/credentials"
 	"google.golang.org/grpc/status"
 	"google.golang.org/protobuf/encoding/prototext"
 	"google.golang.org/protobuf/proto"
@@ -29,7 +30,9 @@ import (
 	xdsfake "istio.io/istio/pilot/test/xds"
 	"istio.io/istio/pkg/config"
 	"istio.io/istio/pkg/config/schema/collections"
+	kubelib "istio.io/istio/pkg/kube"
 	istiolog "istio.io/istio/pkg/log"
+	"istio.io/istio/pkg/security"
 	"istio.io/istio/pkg/simhook"
 	"verif/sim/engine"
 )
@@ -81,7 +84,24 @@ func quietLogs() {
 	})
 }
 
+// simIdentityKey carries the credential identities of a simulated TLS stream to the simulator's authenticator.
+type simIdentityKey struct{}
+
+// simAuthenticator is the stub for xDS authentication (the seam istiod already has): it reports the identities the
+// simulated client was given.
+type simAuthenticator struct{}
+
+func (simAuthenticator) AuthenticatorType() string { return "sim" }
+func (simAuthenticator) Authenticate(ctx security.AuthContext) (*security.Caller, error) {
+	ids, _ := ctx.GrpcContext.Value(simIdentityKey{}).([]string)
+	if ids == nil {
+		return nil, fmt.Errorf("no credential")
+	}
+	return &security.Caller{AuthSource: security.AuthSourceClientCertificate, Identities: ids}, nil
+}
+
 type wisOpts struct {
+	kubeModifier  func(c kubelib.Client)
 	debounceAfter time.Duration
 	debounceMax   time.Duration
 	configs       []config.Config
@@ -115,8 +135,9 @@ func newWisInstance(t *testing.T, name string, o wisOpts) *wisInstance {
 	}
 	fds := xdsfake.NewFakeDiscoveryServer(f, xdsfake.FakeOptions{
 		DebounceTime:      o.debounceAfter,
-		Configs:           o.configs,
-		KubernetesObjects: o.kubeObjects,
+		Configs:            o.configs,
+		KubernetesObjects:  o.kubeObjects,
+		KubeClientModifier: o.kubeModifier,
 	})
 	features.EnableXDSCaching = prevCache
 	return &wisInstance{name: name, f: f, fds: fds, opts: o}
@@ -226,8 +247,14 @@ func (w *wis) connect(c *xdsClient, inst *wisInstance, permuteDeps bool) {
 	c.streams++
 	c.connected = true
 	c.inst = inst
+	parent := w.ctx
+	var auth credentials.AuthInfo
+	if c.tls {
+		auth = credentials.TLSInfo{}
+		parent = context.WithValue(parent, simIdentityKey{}, c.identities)
+	}
 	if c.delta {
-		st := newSimStream[discovery.DeltaDiscoveryRequest, discovery.DeltaDiscoveryResponse](w.ctx, addr, nil)
+		st := newSimStream[discovery.DeltaDiscoveryRequest, discovery.DeltaDiscoveryResponse](parent, addr, auth)
 		c.dstr = st
 		go func() {
 			err := inst.fds.Discovery.StreamDeltas(st)
@@ -235,7 +262,7 @@ func (w *wis) connect(c *xdsClient, inst *wisInstance, permuteDeps bool) {
 			end <- err
 		}()
 	} else {
-		st := newSimStream[discovery.DiscoveryRequest, discovery.DiscoveryResponse](w.ctx, addr, nil)
+		st := newSimStream[discovery.DiscoveryRequest, discovery.DiscoveryResponse](parent, addr, auth)
 		c.sotw = st
 		go func() {
 			err := inst.fds.Discovery.Stream(st)
